@@ -152,8 +152,16 @@ func main() {
 			selftest[k] = v
 		}
 		if !*noSweep {
-			for k, v := range runSensitivitySweep(p0, prop, funcs) {
+			sw := runSensitivitySweep(p0, prop, funcs)
+			for k, v := range sw {
 				selftest[k] = v
+			}
+			// keep the sweep lists beside the evidence, where a later quick run does not overwrite them
+			if b, err := json.MarshalIndent(sw, "", " "); err == nil {
+				dir := filepath.Join(*evDir, "sweep")
+				if os.MkdirAll(dir, 0o755) == nil {
+					os.WriteFile(filepath.Join(dir, prop.ID+".json"), b, 0o644)
+				}
 			}
 		}
 	}
